@@ -14,8 +14,8 @@ the error bound with the Lipschitz constant 1 of `sn, cn, dn, E` in their argume
 * `tmxc`  — constructor state (`tol_`, `tol2_`, `taytol_`, `_mu`, `_mv`, `_e`, `numit_` = the header value in `Gen.TMExact`, `_extendp`);
 * `tmxf`  — `zeta`, `dwdzeta`, `sigma`, `dwdsigma`, `Scale` at a given `(u, v)`;
 * `tmxz0`, `tmxs0` — the starting guesses: same case, same flag, same `(u, v)`;
-* `tmxzi`, `tmxsi` — the Newton loops: every recorded step is the model's step from the recorded iterate; the model's loop run on the
-  recorded kernel values takes the same number of steps and ends where the library's own `zetainv` / `sigmainv` ended;
+* `tmxzi`, `tmxsi` — the Newton loops: every recorded step is the model's step from the recorded iterate; the model's loop (`newton`) fed with the
+  model's corrections at the recorded iterates takes the same number of steps and ends where the library's own `zetainv` / `sigmainv` ended;
 * `tmxkf`, `tmxkr` — `Forward` / `Reverse` between the fold and the unfold (pole and branch-point special cases included).
 -/
 namespace GeoVerif.Corr.C06X
@@ -179,16 +179,25 @@ def handle (op : String) (args res : List String) : Option Verdict :=
       | some (loop, []) =>
         let p := mkPar (RE.exact f) false
         let E := mkEll Ku Eu Kv KEv loop nanEnt
+        -- loop control is decided on the recorded trajectory itself: the model's `newton` is run with the model's corrections at the recorded
+        -- iterates (exact inputs), so that a rounding-level difference between the model's and the recorded iterate cannot change a test
+        -- next to the branch point, where the corrections are dominated by the rounding of sigma / zeta
+        let nan : RE := RE.exact (0.0 / 0.0)
+        let ctrl (stepf : Nat → RE → RE → RE × RE) (thr : RE) (s : Start RE) : NOut RE :=
+          if s.done then ⟨s.u, s.v, 0, false, false⟩ else
+          newton (fun i _ _ => match loop[i]? with
+            | some e => stepf i (RE.exact e.u) (RE.exact e.v)
+            | none => (nan, nan)) thr p.numit 0 false s.u s.v
         if op == "tmxzi" then
           let taup := RE.exact a; let lam := RE.exact b
           let psi : RE := RealLike.asinh taup
           let scal : RE := (RE.exact 1) / RealLike.hypot (RE.exact 1) taup
           let thr : RE := p.tol2 / RealLike.sq (RealLike.max psi (RE.exact 1))
-          let r := zetainv p E taup lam
-          loopVerdict "zetainv" r.1 r.2 loop uf vf thr.v (stepChecks (zetaStep p E taup lam scal) loop uf vf)
+          let s := zetainv0 p E psi lam
+          loopVerdict "zetainv" (ctrl (zetaStep p E taup lam scal) thr s) s.which loop uf vf thr.v (stepChecks (zetaStep p E taup lam scal) loop uf vf)
         else
-          let r := sigmainv p E (RE.exact a) (RE.exact b)
-          loopVerdict "sigmainv" r.1 r.2 loop uf vf p.tol2.v (stepChecks (sigmaStep p E (RE.exact a) (RE.exact b)) loop uf vf)
+          let s := sigmainv0 p E (RE.exact a) (RE.exact b)
+          loopVerdict "sigmainv" (ctrl (sigmaStep p E (RE.exact a) (RE.exact b)) p.tol2 s) s.which loop uf vf p.tol2.v (stepChecks (sigmaStep p E (RE.exact a) (RE.exact b)) loop uf vf)
       | _ => .bad "parse"
     | _, _ => .bad "parse"
   | "tmxkf" => some <|
